@@ -200,6 +200,22 @@ def rule_area(ctx, R):
         croles = Roles(cb, ctx.fb, param_roles={1: "INDENT"})
         sites_ = [[croles.of_operand(a, bi) for a in t["args"]] for bi, t in cb.calls() if callee_name(t["f"], ctx.fb) == COMPILE + "area"]
         R.check(len(sites_) == 1 and sites_[0][1:] == ["AREA", "AREACOUNT"], "area:call_binding", "command() emits the area of the command with the command's count (syllables x dots): %s" % sites_, cb.span)
+    # which node emits which piece: operators (type 0/1) the comparison, hearts 2..12 the label piece, ♡ (13) the return
+    ab = ctx.fb.bodies.get(COMPILE + "area")
+    if R.anchor(ab is not None, "area_fn", "compile::area"):
+        from .util import dominating_edge_labels
+        acfg = normal_cfg(ab)
+        aroles = Roles(ab, ctx.fb, param_roles={1: "INDENT", 2: "AREA", 3: "AREACOUNT"})
+        aev = Events(ab, ctx.fb, roles=aroles)
+        got = {}
+        for t in templates_of(ab, ctx.fb, aroles.org):
+            sk = t.skeleton()
+            key = "compare" if "partial_cmp" in sk else "label" if "point.entry" in sk else "return" if "= last" in sk else None
+            if key:
+                labs = sorted(re.sub(r"^LT\[.*type_,", "LT[type_,", l) for l in dominating_edge_labels(acfg, ab, aev, t.block) if "type_" in l)
+                got[key] = labs
+        want_d = {"compare": ["LT[type_,K2]=1"], "label": ["LT[type_,K13]=1", "LT[type_,K2]=0"], "return": ["LT[type_,K13]=0", "LT[type_,K2]=0"]}
+        R.check(got == want_d, "area:dispatch", "the comparison is emitted for node types 0/1, the label piece for hearts 2..12, the return piece for ♡ (13): %s" % got, ab.span)
     lid = meta.get("bindings", {}).get("label_id", "")
     R.check(lid.startswith("((AREACOUNT Shl K4) Add ") and lid.endswith("type_)"), "area:label_id", "the emitted label id is (count << 4) + heart type, the interpreter's formula: %s" % lid[:80])
     for v in ("v0", "v1"):
